@@ -358,6 +358,11 @@ pub struct RunRecord {
     #[serde(default)]
     pub env_perturbed: u64,
     #[serde(default)]
+    pub cpu_reads: u64,
+    /// compared outcomes of calls whose haystack is at least 4096 bytes long
+    #[serde(default)]
+    pub large_input_outcomes: u64,
+    #[serde(default)]
     pub env_keys: Vec<String>,
     /// Dense build only: basic-block edges executed inside library calls, and how many of
     /// them were offered to the scheduler as preemption points.
